@@ -77,7 +77,8 @@ def tstat_paired(x, y, tail):
     dd = [a - b for a, b in zip(x, y)]; n = len(dd)
     m = sum(dd) / n
     sd = math.sqrt(sum((v - m) ** 2 for v in dd) / (n - 1))
-    t = m / (sd / math.sqrt(n))
+    if sd == 0: t = float('nan') if m == 0 else math.copysign(float('inf'), m)     # numpy: 0/0 = nan (never exceeds), c/0 = +-inf
+    else: t = m / (sd / math.sqrt(n))
     return abs(t) if tail == 'both' else (-t if tail == 'left' else t)
 
 
@@ -107,10 +108,15 @@ def body(case, M):
     paired = bool(case.get('paired'))
     rng = M.rng(budget=k + 1, unif_subset=[F(u) for u in case['unif']]) if paired else M.rng(budget=k + 1, fork_perm=True, perm_subset=case['perms'])
     tstat = tstat_paired if paired else globals()['tstat']
+    def exceeds(t):
+        if t != t: return False
+        if t in (float('inf'), float('-inf')): return t > 0
+        return bool(M.truth_value(sc.gt(F(t).limit_denominator(10**12) if M.symbolic else t, thr)))
     def clear(stats):
         # the routine and the oracle compute the statistic in different operation orders (1e-15 apart): keep the threshold
         # at least 1e-6 away from every statistic so both classify every connection alike
         for t in stats:
+            if t != t or t in (float('inf'), float('-inf')): continue
             tf = F(t).limit_denominator(10**12) if M.symbolic else t
             M.assume(sc.ge(sc.sabs(sc.sub(thr, tf)), F(1, 10**6)))
     BCTParamError = M.mod('misc').BCTParamError
@@ -120,12 +126,12 @@ def body(case, M):
         # "Unsuitable threshold" (nothing supra-threshold) / "degenerate": must coincide with the oracle seeing no component
         ts = [tstat(d['x'][e], d['y'][e], tail) for e in range(ne)]
         clear(ts)
-        none_above = land(*[lnot(sc.gt(F(t).limit_denominator(10**12) if M.symbolic else t, thr)) for t in ts])
+        none_above = not any(exceeds(t) for t in ts)
         M.oblige('ret:error_only_when_nothing_exceeds_threshold', none_above)
         M.note('rejected'); return
     ts = [tstat(d['x'][e], d['y'][e], tail) for e in range(ne)]
     clear(ts)
-    above = [bool(M.truth_value(sc.gt(F(t).limit_denominator(10**12) if M.symbolic else t, thr))) for t in ts]
+    above = [exceeds(t) for t in ts]
     on = [EDGES[e] for e in range(ne) if above[e]]
     comps = components(n, on)
     # adjacency: supra-threshold edges inside a component, labelled i+1 per component (in get_components' label order)
@@ -153,7 +159,7 @@ def body(case, M):
         if kind == 'signs': tsp = [tstat([sg * v for sg, v in zip(p, d['x'][e])], [sg * v for sg, v in zip(p, d['y'][e])], tail) for e in range(ne)]
         else: tsp = [tstat([allv[e][q] for q in p[:nx]], [allv[e][q] for q in p[nx:]], tail) for e in range(ne)]
         clear(tsp)
-        ab = [bool(M.truth_value(sc.gt(F(t).limit_denominator(10**12) if M.symbolic else t, thr))) for t in tsp]
+        ab = [exceeds(t) for t in tsp]
         onp = [EDGES[e] for e in range(ne) if ab[e]]
         sizes = [sum(1 for (i, j) in onp if i in g and j in g) for g in components(n, onp)]
         if u < len(nl): M.oblige('ret:null_is_largest_component_under_relabelling#%d' % u, nl[u] == (max(sizes) if sizes else 0))
